@@ -336,6 +336,64 @@ func b01(b bool) string {
 	return "0"
 }
 
+// Keys and query prefixes are opaque strings; in op lines and outputs they are written as tokens in which the
+// bytes the line protocol itself uses (space and other bytes <= 0x20, `~`, 0x7f) and the escape character `^`
+// appear as `^` + two upper-case hex digits. The encoding is a byte-wise prefix code: a token is a prefix of
+// another token iff the key is a prefix of the other key. A lone `-` is the empty prefix.
+
+// EncKey writes a key as a protocol token.
+func EncKey(k string) string {
+	need := false
+	for i := 0; i < len(k); i++ {
+		if c := k[i]; c <= 0x20 || c == '~' || c == '^' || c == 0x7f {
+			need = true
+			break
+		}
+	}
+	if !need {
+		return k
+	}
+	var b strings.Builder
+	for i := 0; i < len(k); i++ {
+		if c := k[i]; c <= 0x20 || c == '~' || c == '^' || c == 0x7f {
+			fmt.Fprintf(&b, "^%02X", c)
+		} else {
+			b.WriteByte(c)
+		}
+	}
+	return b.String()
+}
+
+func hexVal(c byte) int {
+	switch {
+	case c >= '0' && c <= '9':
+		return int(c - '0')
+	case c >= 'A' && c <= 'F':
+		return int(c-'A') + 10
+	}
+	return -1
+}
+
+// DecKey reads a key token; ok is false for a malformed escape.
+func DecKey(tok string) (string, bool) {
+	if strings.IndexByte(tok, '^') < 0 {
+		return tok, true
+	}
+	var b strings.Builder
+	for i := 0; i < len(tok); i++ {
+		if tok[i] != '^' {
+			b.WriteByte(tok[i])
+			continue
+		}
+		if i+2 >= len(tok) || hexVal(tok[i+1]) < 0 || hexVal(tok[i+2]) < 0 {
+			return "", false
+		}
+		b.WriteByte(byte(hexVal(tok[i+1])<<4 | hexVal(tok[i+2])))
+		i += 2
+	}
+	return b.String(), true
+}
+
 // ShowMeta renders metadata canonically; the flags are read through CheckPermission.
 func (e *Exec) ShowMeta(m *record.Meta) string {
 	if m == nil {
@@ -650,13 +708,13 @@ func ShowPayload(r record.Record) string {
 func (e *Exec) ShowRec(r record.Record) string {
 	r.Lock()
 	defer r.Unlock()
-	return r.DatabaseKey() + "~" + e.ShowMeta(r.Meta()) + "~" + ShowPayload(r)
+	return EncKey(r.DatabaseKey()) + "~" + e.ShowMeta(r.Meta()) + "~" + ShowPayload(r)
 }
 
 // ShowRecUnlocked renders key~meta~payload without taking the record's lock (for code that is called while the
 // caller holds it, such as a value provider's Set).
 func (e *Exec) ShowRecUnlocked(r record.Record) string {
-	return r.DatabaseKey() + "~" + e.ShowMeta(r.Meta()) + "~" + ShowPayload(r)
+	return EncKey(r.DatabaseKey()) + "~" + e.ShowMeta(r.Meta()) + "~" + ShowPayload(r)
 }
 
 // CopyRecord returns an independent copy of a harness record (typed struct or wrapper); the caller must make
@@ -699,6 +757,9 @@ func ErrStr(err error) string {
 		return "setfailed"
 	case strings.Contains(err.Error(), "out of database scope"):
 		return "outofscope"
+	case strings.Contains(err.Error(), "fstree: key integrity check failed"), strings.Contains(err.Error(), "fstree: key is not a clean path"):
+		// the file-tree backend refuses keys that are not clean relative paths (see notes/c02.md)
+		return "badkey"
 	}
 	msg := err.Error()
 	if root != "" {
@@ -909,7 +970,10 @@ func (e *Exec) Drain(it *iterator.Iterator) ([]string, error) {
 func sortByKey(l []string) {
 	key := func(s string) string {
 		if i := strings.IndexByte(s, '~'); i >= 0 {
-			return s[:i]
+			s = s[:i]
+		}
+		if k, ok := DecKey(s); ok {
+			return k
 		}
 		return s
 	}
@@ -1015,6 +1079,21 @@ func (e *Exec) do(line string) string {
 			return nil
 		}
 		return e.ifs[f[1]]
+	}
+	// key / key-prefix tokens (see EncKey)
+	kpos := 0
+	switch f[0] {
+	case "get", "exists", "put", "putnew", "del", "reput", "setabs", "setrel", "mksecret", "mkcrown", "insert", "pmput", "query", "purge":
+		kpos = 2
+	case "sub":
+		kpos = 3
+	}
+	if kpos > 0 && len(f) > kpos {
+		k, ok := DecKey(f[kpos])
+		if !ok {
+			return "bad-op"
+		}
+		f[kpos] = k
 	}
 	switch f[0] {
 	case "if":
@@ -1264,7 +1343,7 @@ func (e *Exec) do(line string) string {
 				continue // deleted "now": see dumpVisible in the model
 			}
 			m := m
-			l = append(l, k+"~"+e.ShowMeta(&m))
+			l = append(l, EncKey(k)+"~"+e.ShowMeta(&m))
 		}
 		sortByKey(l)
 		return showList(l)
@@ -1334,6 +1413,86 @@ func (e *Exec) do(line string) string {
 			es = "error"
 		}
 		return fmt.Sprintf("ok %d err=%s", len(l), es)
+	case "pq":
+		// pq <A> <prefix> <P> <mksecret|mkcrown|mkboth|del|expire> <k1,k2,…>: a query by interface A whose consumer does
+		// not read (the storage's executor runs until the result buffer is full and it is parked in its hand-over),
+		// then interface P re-flags (deletes, sets an expiry in the past on) the listed records and returns, then the
+		// consumer reads the stream to its end.
+		// Answers the buffer capacity, whether the buffer was full when the re-flag began, the result of the
+		// re-flag, and the records IN ORDER OF ARRIVAL, each rendered when it is received.
+		if len(f) != 6 || e.ifs[f[1]] == nil || e.ifs[f[3]] == nil {
+			return "bad-op"
+		}
+		pfx, ok := DecKey(f[2])
+		if !ok || (f[4] != "mksecret" && f[4] != "mkcrown" && f[4] != "mkboth" && f[4] != "del" && f[4] != "expire") {
+			return "bad-op"
+		}
+		var keys []string
+		for _, t := range strings.Split(f[5], ",") {
+			k, ok := DecKey(t)
+			if !ok {
+				return "bad-op"
+			}
+			keys = append(keys, k)
+		}
+		q, ok := e.BuildQuery(e.db, pfx, "-")
+		if !ok {
+			return "bad-op"
+		}
+		it, err := e.ifs[f[1]].Query(q)
+		if err != nil {
+			return ErrStr(err)
+		}
+		capN := cap(it.Next)
+		parked := 0
+	wait:
+		for t0 := time.Now(); time.Since(t0) < 300*time.Millisecond; time.Sleep(100 * time.Microsecond) {
+			if len(it.Next) == capN {
+				parked = 1
+				break
+			}
+			select {
+			case <-it.Done: // the executor has finished: fewer records than the buffer holds
+				break wait
+			default:
+			}
+		}
+		reflag := "ok"
+		p := e.ifs[f[3]]
+		for _, k := range keys {
+			var errs []error
+			switch f[4] {
+			case "del":
+				errs = append(errs, p.Delete(e.db+":"+k))
+			case "expire":
+				errs = append(errs, p.SetAbsoluteExpiry(e.db+":"+k, 5))
+			default:
+				if f[4] != "mkcrown" {
+					errs = append(errs, p.MakeSecret(e.db+":"+k))
+				}
+				if f[4] != "mksecret" {
+					errs = append(errs, p.MakeCrownJewel(e.db+":"+k))
+				}
+			}
+			for _, err := range errs {
+				if err != nil && reflag == "ok" {
+					reflag = ErrStr(err)
+				}
+			}
+		}
+		var got []string
+		for r := range it.Next {
+			got = append(got, e.ShowRec(r))
+		}
+		es := "nil"
+		if ierr := it.Err(); ierr != nil {
+			es = "error"
+		}
+		out := fmt.Sprintf("ok cap=%d parked=%d reflag=%s n=%d", capN, parked, reflag, len(got))
+		if len(got) > 0 {
+			out += " " + strings.Join(got, " ")
+		}
+		return out + " err=" + es
 	case "flush":
 		i := needIf(2)
 		if i == nil {
